@@ -11,7 +11,9 @@ package vsync
 import (
 	"fmt"
 	"hash/fnv"
+	"runtime"
 	"runtime/debug"
+	"sort"
 	"strings"
 	"sync"
 )
@@ -88,6 +90,105 @@ type thread struct {
 	rok  bool
 	sval any
 	name string
+	h    uint64   // happens-before hash of the thread's own history
+	vc   []uint32 // vector clock (data race detection)
+}
+
+func vcJoin(a, b []uint32) []uint32 {
+	for len(a) < len(b) {
+		a = append(a, 0)
+	}
+	for i, x := range b {
+		if x > a[i] {
+			a[i] = x
+		}
+	}
+	return a
+}
+
+func vcCopy(a []uint32) []uint32 { return append([]uint32(nil), a...) }
+
+func (t *thread) tick() {
+	for len(t.vc) <= t.id {
+		t.vc = append(t.vc, 0)
+	}
+	t.vc[t.id]++
+}
+
+// acquire / release implement the happens-before edges of the synchronisation operations.
+func acquire(ovc []uint32) {
+	s.cur.vc = vcJoin(s.cur.vc, ovc)
+}
+
+func release(ovc *[]uint32) {
+	t := s.cur
+	*ovc = vcJoin(*ovc, t.vc)
+	t.tick()
+}
+
+type locState struct {
+	wT    int
+	wC    uint32
+	reads map[int]uint32
+}
+
+func (t *thread) saw(o int, c uint32) bool { return o < len(t.vc) && t.vc[o] >= c }
+
+func access(p any, label string, write bool) {
+	if Mode == Pass || s == nil || s.killing {
+		return
+	}
+	t := s.cur
+	if len(t.vc) <= t.id {
+		t.tick()
+	}
+	l := s.locs[p]
+	if l == nil {
+		l = &locState{wT: -1, reads: map[int]uint32{}}
+		s.locs[p] = l
+	}
+	race := ""
+	if l.wT >= 0 && l.wT != t.id && !t.saw(l.wT, l.wC) {
+		race = fmt.Sprintf("write by T%d", l.wT)
+	}
+	if write && race == "" {
+		for rt, rc := range l.reads {
+			if rt != t.id && !t.saw(rt, rc) {
+				race = fmt.Sprintf("read by T%d", rt)
+				break
+			}
+		}
+	}
+	if race != "" && !s.raced[label] {
+		s.raced[label] = true
+		kind := "read"
+		if write {
+			kind = "write"
+		}
+		s.x.Races = append(s.x.Races, label)
+		s.fault(fmt.Sprintf("data race on %s: %s by T%d(%s) is not ordered after the %s", label, kind, t.id, t.name, race))
+	}
+	if write {
+		l.wT, l.wC = t.id, t.vc[t.id]
+		l.reads = map[int]uint32{}
+	} else {
+		l.reads[t.id] = t.vc[t.id]
+	}
+}
+
+// R records a read of shared state (inserted by vrewrite).
+func R(p any, label string) { access(p, label, false) }
+
+// W records a write of shared state (inserted by vrewrite).
+func W(p any, label string) { access(p, label, true) }
+
+func mix(a uint64, bs ...uint64) uint64 {
+	for _, b := range bs {
+		a ^= b + 0x9e3779b97f4a7c15 + (a << 6) + (a >> 2)
+		a *= 0xbf58476d1ce4e5b9
+		a ^= a >> 29
+	}
+	return a
 }
 
 type killSentinel struct{}
@@ -112,27 +213,44 @@ type Execution struct {
 	Threads   int
 	Trace     []string // only when Options.KeepTrace
 	Preempt   int
+	Races     []string // labels of shared state accessed without happens-before ordering
+	Pruned    bool     // abandoned because an equivalent state had been explored with at least the same budget
 }
 
 type sched struct {
-	threads  []*thread
-	cur      *thread
-	prefix   []int
-	pos      int
-	x        *Execution
-	killing  bool
-	epoch    uint64
-	nextOID  int
-	finished chan struct{}
-	horizon  int
-	keep     bool
-	h        uint64
-	diverged string
+	threads   []*thread
+	cur       *thread
+	prefix    []int
+	pos       int
+	x         *Execution
+	killing   bool
+	epoch     uint64
+	nextOID   int
+	finished  chan struct{}
+	horizon   int
+	keep      bool
+	h         uint64
+	diverged  string
 	initiator *thread // the thread that started unwinding the execution
+	mem       uint64  // hash of the order of explicit yields (they stand for unsynchronised memory accesses)
+	objs      []keyed
+	visited   map[uint64]int
+	bound     int
+	policy    func(n int, curEnabled bool) int // choice beyond the prefix (nil: option 0)
+	locs      map[any]*locState
+	raced     map[string]bool
+}
+
+type keyed interface {
+	key() uint64
 }
 
 var s *sched
 var epochCounter uint64
+
+// passGoroutines counts goroutines started in Pass mode.  Such a goroutine may still be running when an
+// exploration starts and would then enter the scheduler unannounced, so exploring is refused.
+var passGoroutines int
 
 // ---------------------------------------------------------------------------------------------
 
@@ -187,8 +305,31 @@ func (sc *sched) enabled(t *thread) bool {
 	return false
 }
 
+// stateKey hashes the global state at a scheduling point: every live thread's history hash and pending
+// operation (as a multiset: threads with equal histories are interchangeable) and every object's hash.
+func (sc *sched) stateKey() uint64 {
+	var ts []uint64
+	for _, t := range sc.threads {
+		if t.done {
+			continue
+		}
+		id := uint64(0)
+		if t.pend.obj != nil {
+			id = uint64(t.pend.obj.oid() + 3)
+		}
+		ts = append(ts, mix(t.h, uint64(t.pend.kind), id))
+	}
+	sort.Slice(ts, func(i, j int) bool { return ts[i] < ts[j] })
+	k := mix(0x5bd1e995, ts...)
+	for _, o := range sc.objs {
+		k = mix(k, o.key())
+	}
+	return mix(k, sc.mem)
+}
+
 // choose picks the next thread among the enabled ones; cur (if non-nil and enabled) is option 0.
-func (sc *sched) choose(cur *thread) *thread {
+// pruned reports that the state reached here was already explored with at least the remaining budget.
+func (sc *sched) choose(cur *thread) (next *thread, pruned bool) {
 	var en []*thread
 	curEn := cur != nil && sc.enabled(cur)
 	if curEn {
@@ -200,7 +341,7 @@ func (sc *sched) choose(cur *thread) *thread {
 		}
 	}
 	if len(en) == 0 {
-		return nil
+		return nil, false
 	}
 	idx := 0
 	if len(en) > 1 {
@@ -210,6 +351,24 @@ func (sc *sched) choose(cur *thread) *thread {
 				sc.diverged = fmt.Sprintf("replay divergence at choice %d: prefix wants option %d of %d", sc.pos, idx, len(en))
 				idx = 0
 			}
+		} else if sc.policy != nil {
+			idx = sc.policy(len(en), curEn)
+			if idx < 0 || idx >= len(en) {
+				idx = 0
+			}
+		} else if sc.visited != nil {
+			left := 1 << 30
+			if sc.bound >= 0 {
+				left = sc.bound - sc.x.Preempt
+			}
+			k := sc.stateKey()
+			if cur != nil {
+				k = mix(k, uint64(cur.id)+1, 7)
+			}
+			if b, ok := sc.visited[k]; ok && b >= left {
+				return nil, true
+			}
+			sc.visited[k] = left
 		}
 		sc.pos++
 		sc.x.Points = append(sc.x.Points, Point{N: len(en), CurEnabled: curEn, Chosen: idx})
@@ -218,7 +377,7 @@ func (sc *sched) choose(cur *thread) *thread {
 			sc.x.Preempt++
 		}
 	}
-	return en[idx]
+	return en[idx], false
 }
 
 // step is called by the running thread before a visible operation.  It returns when the thread has
@@ -235,7 +394,11 @@ func (sc *sched) step(o op) {
 		sc.fault("step horizon exceeded (livelock?)")
 		sc.endExecution(t)
 	}
-	next := sc.choose(t)
+	next, pruned := sc.choose(t)
+	if pruned {
+		sc.x.Pruned = true
+		sc.endExecution(t)
+	}
 	if next == nil {
 		sc.x.Deadlock = true
 		sc.fault("deadlock: no enabled thread; " + sc.describe())
@@ -353,7 +516,14 @@ func (sc *sched) threadGone(t *thread) {
 	}
 	// an ordinary thread finished: hand the baton on
 	sc.x.Steps++
-	next := sc.choose(nil)
+	next, pruned := sc.choose(nil)
+	if pruned {
+		sc.x.Pruned = true
+		sc.initiator = t
+		sc.killOthers(t)
+		sc.finished <- struct{}{}
+		return
+	}
 	if next == nil {
 		sc.x.Deadlock = true
 		sc.fault("deadlock: no enabled thread after exit of T" + fmt.Sprint(t.id) + "; " + sc.describe())
@@ -390,9 +560,12 @@ func (sc *sched) newThread(name string, f func()) *thread {
 }
 
 // run executes body once under the scheduler, replaying prefix and then taking option 0.
-func run(prefix []int, horizon int, keep bool, body func()) *Execution {
+func run(prefix []int, horizon int, keep bool, body func(), visited map[uint64]int, bound int) *Execution {
+	if passGoroutines > 0 {
+		panic("vsync: goroutines were started in Pass mode before an exploration; run setup code under RunOnce")
+	}
 	epochCounter++
-	sc := &sched{prefix: prefix, x: &Execution{}, epoch: epochCounter, finished: make(chan struct{}), horizon: horizon, keep: keep}
+	sc := &sched{prefix: prefix, x: &Execution{}, epoch: epochCounter, finished: make(chan struct{}), horizon: horizon, keep: keep, visited: visited, bound: bound, policy: pendingPolicy, locs: map[any]*locState{}, raced: map[string]bool{}}
 	s = sc
 	Mode = Explore
 	t0 := sc.newThread("main", body)
@@ -417,7 +590,17 @@ type Options struct {
 	NShards   int
 	KeepTrace bool
 	Stop      func() bool // polled between executions (deadline)
+	// Prune enables happens-before state hashing: an execution is abandoned at a scheduling point whose
+	// global state (multiset of thread history hashes + object hashes) was already reached with at
+	// least the same remaining preemption budget.  Sound for data-race-free code whose thread-local
+	// state is a function of the thread's own synchronisation history.
+	Prune bool
+	// SymmetricSpawn lists function names whose spawned goroutines are interchangeable (identical
+	// closures without captured per-goroutine data): they start with equal history hashes.
+	SymmetricSpawn []string
 }
+
+var symSites []string
 
 // Stats summarises an exploration.
 type Stats struct {
@@ -446,8 +629,8 @@ func ExploreAll(opt Options, body func(), after func(x *Execution, prefix []int)
 	}
 	st := &Stats{Distinct: map[uint64]int64{}, BoundDone: opt.Bound}
 	// determinism self-check: the default schedule twice
-	a := run(nil, opt.Horizon, false, body)
-	b := run(nil, opt.Horizon, false, body)
+	a := run(nil, opt.Horizon, false, body, nil, 0)
+	b := run(nil, opt.Horizon, false, body, nil, 0)
 	if a.TraceHash != b.TraceHash || len(a.Points) != len(b.Points) {
 		st.NonDetermin = fmt.Sprintf("default schedule is not deterministic: trace %x (%d points) vs %x (%d points)", a.TraceHash, len(a.Points), b.TraceHash, len(b.Points))
 		return st
@@ -458,6 +641,11 @@ func ExploreAll(opt Options, body func(), after func(x *Execution, prefix []int)
 	}
 	stack := []item{{nil, 0}}
 	rootChildren := 0
+	var visited map[uint64]int
+	if opt.Prune {
+		visited = map[uint64]int{}
+		symSites = opt.SymmetricSpawn
+	}
 	for len(stack) > 0 {
 		it := stack[len(stack)-1]
 		stack = stack[:len(stack)-1]
@@ -465,9 +653,12 @@ func ExploreAll(opt Options, body func(), after func(x *Execution, prefix []int)
 			st.Capped = true
 			break
 		}
-		x := run(it.prefix, opt.Horizon, opt.KeepTrace, body)
+		x := run(it.prefix, opt.Horizon, opt.KeepTrace, body, visited, opt.Bound)
 		isRoot := len(it.prefix) == 0
-		if !isRoot || opt.Shard == 0 {
+		if x.Pruned {
+			st.Pruned++
+		}
+		if (!isRoot || opt.Shard == 0) && !x.Pruned {
 			st.Executions++
 			st.ChoicePts += int64(len(x.Points))
 			st.Steps += int64(x.Steps)
@@ -522,9 +713,19 @@ func ExploreAll(opt Options, body func(), after func(x *Execution, prefix []int)
 	return st
 }
 
+// RunPolicy executes body once, resolving every choice with policy (e.g. "always the last enabled
+// thread", which lets spawned workers run before their creator continues).
+func RunPolicy(policy func(n int, curEnabled bool) int, body func()) *Execution {
+	pendingPolicy = policy
+	defer func() { pendingPolicy = nil }()
+	return run(nil, 1000000, false, body, nil, 0)
+}
+
+var pendingPolicy func(n int, curEnabled bool) int
+
 // RunOnce executes body under one given schedule prefix (replay).
 func RunOnce(prefix []int, keepTrace bool, body func()) *Execution {
-	return run(prefix, 1000000, keepTrace, body)
+	return run(prefix, 1000000, keepTrace, body, nil, 0)
 }
 
 // ---------------------------------------------------------------------------------------------
@@ -533,6 +734,8 @@ func RunOnce(prefix []int, keepTrace bool, body func()) *Execution {
 type base struct {
 	id    int
 	epoch uint64
+	h     uint64
+	vc    []uint32
 }
 
 func (b *base) oid() int { return b.id }
@@ -543,9 +746,20 @@ func (b *base) touch() bool {
 		b.epoch = s.epoch
 		b.id = s.nextOID
 		s.nextOID++
+		b.h = mix(0xabcdef, uint64(b.id))
+		b.vc = nil
 		return true
 	}
 	return false
+}
+
+// hb records operation k of the running thread on an object with history hash *oh: both histories
+// absorb each other (pre-values), so that only the order of operations on the same object matters.
+func hb(k opKind, oh *uint64) {
+	t := s.cur
+	th, o := t.h, *oh
+	t.h = mix(th, uint64(k), o)
+	*oh = mix(o, uint64(k), th)
 }
 
 // Mutex replaces sync.Mutex.
@@ -565,9 +779,19 @@ func (m *Mutex) Lock() {
 	}
 	if m.touch() {
 		m.locked = false
+		s.objs = append(s.objs, m)
 	}
 	s.step(op{kind: opLock, obj: m})
 	m.locked = true
+	hb(opLock, &m.h)
+	acquire(m.vc)
+}
+
+func (m *Mutex) key() uint64 {
+	if m.locked {
+		return mix(uint64(m.id), m.h, 1)
+	}
+	return mix(uint64(m.id), m.h, 0)
 }
 
 func (m *Mutex) Unlock() {
@@ -580,12 +804,15 @@ func (m *Mutex) Unlock() {
 	}
 	if m.touch() {
 		m.locked = false
+		s.objs = append(s.objs, m)
 	}
 	s.step(op{kind: opUnlock, obj: m})
 	if !m.locked {
 		s.fault("unlock of unlocked mutex")
 	}
 	m.locked = false
+	hb(opUnlock, &m.h)
+	release(&m.vc)
 }
 
 // RWMutex replaces sync.RWMutex.
@@ -599,7 +826,16 @@ type RWMutex struct {
 func (m *RWMutex) init() {
 	if m.touch() {
 		m.w, m.r = false, 0
+		s.objs = append(s.objs, m)
 	}
+}
+
+func (m *RWMutex) key() uint64 {
+	w := uint64(0)
+	if m.w {
+		w = 1
+	}
+	return mix(uint64(m.id), m.h, w, uint64(m.r))
 }
 
 func (m *RWMutex) Lock() {
@@ -613,6 +849,8 @@ func (m *RWMutex) Lock() {
 	m.init()
 	s.step(op{kind: opLock, obj: m})
 	m.w = true
+	hb(opLock, &m.h)
+	acquire(m.vc)
 }
 
 func (m *RWMutex) Unlock() {
@@ -629,6 +867,8 @@ func (m *RWMutex) Unlock() {
 		s.fault("unlock of unlocked rwmutex")
 	}
 	m.w = false
+	hb(opUnlock, &m.h)
+	release(&m.vc)
 }
 
 func (m *RWMutex) RLock() {
@@ -642,6 +882,8 @@ func (m *RWMutex) RLock() {
 	m.init()
 	s.step(op{kind: opRLock, obj: m})
 	m.r++
+	hb(opRLock, &m.h)
+	acquire(m.vc)
 }
 
 func (m *RWMutex) RUnlock() {
@@ -658,6 +900,8 @@ func (m *RWMutex) RUnlock() {
 		s.fault("runlock of unlocked rwmutex")
 	}
 	m.r--
+	hb(opRUnlock, &m.h)
+	release(&m.vc)
 }
 
 // WaitGroup replaces sync.WaitGroup.
@@ -677,8 +921,11 @@ func (w *WaitGroup) Add(d int) {
 	}
 	if w.touch() {
 		w.n = 0
+		s.objs = append(s.objs, w)
 	}
 	s.step(op{kind: opWgAdd, obj: w})
+	w.h += mix(s.cur.h, uint64(opWgAdd), uint64(d)) // Add/Done commute with each other
+	s.cur.h = mix(s.cur.h, uint64(opWgAdd), uint64(d))
 	w.n += d
 	if w.n < 0 {
 		s.fault("negative WaitGroup counter")
@@ -695,8 +942,12 @@ func (w *WaitGroup) Done() {
 	}
 	if w.touch() {
 		w.n = 0
+		s.objs = append(s.objs, w)
 	}
 	s.step(op{kind: opWgDone, obj: w})
+	w.h += mix(s.cur.h, uint64(opWgDone))
+	s.cur.h = mix(s.cur.h, uint64(opWgDone))
+	release(&w.vc)
 	w.n--
 	if w.n < 0 {
 		s.fault("negative WaitGroup counter")
@@ -713,9 +964,14 @@ func (w *WaitGroup) Wait() {
 	}
 	if w.touch() {
 		w.n = 0
+		s.objs = append(s.objs, w)
 	}
 	s.step(op{kind: opWgWait, obj: w})
+	s.cur.h = mix(s.cur.h, uint64(opWgWait), w.h)
+	acquire(w.vc)
 }
+
+func (w *WaitGroup) key() uint64 { return mix(uint64(w.id), w.h, uint64(w.n+1000)) }
 
 // Once replaces sync.Once.
 type Once struct {
@@ -734,15 +990,26 @@ func (o *Once) Do(f func()) {
 	}
 	if o.touch() {
 		o.state = 0
+		s.objs = append(s.objs, o)
 	}
 	s.step(op{kind: opOnce, obj: o})
+	hb(opOnce, &o.h)
 	if o.state == 2 {
+		acquire(o.vc)
 		return
 	}
 	o.state = 1
-	defer func() { o.state = 2 }()
+	defer func() {
+		o.state = 2
+		if s != nil && !s.killing {
+			hb(opOnce, &o.h)
+			release(&o.vc)
+		}
+	}()
 	f()
 }
+
+func (o *Once) key() uint64 { return mix(uint64(o.id), o.h, uint64(o.state)) }
 
 // Chan replaces a native channel of element type T.
 type Chan[T any] struct {
@@ -750,7 +1017,18 @@ type Chan[T any] struct {
 	real   chan T
 	cap    int
 	buf    []T
+	bufh   []uint64   // history hash carried by each buffered item
+	bufvc  [][]uint32 // vector clock carried by each buffered item
 	closed bool
+	hs, hr uint64 // send-side and receive-side history chains
+}
+
+func (c *Chan[T]) key() uint64 {
+	cl := uint64(0)
+	if c.closed {
+		cl = 1
+	}
+	return mix(uint64(c.id), c.hs, c.hr, uint64(len(c.buf)), cl)
 }
 
 // MakeChan replaces make(chan T, n).
@@ -767,7 +1045,9 @@ func (c *Chan[T]) isNil() bool { return c == nil }
 
 func (c *Chan[T]) init() {
 	if c.touch() {
-		c.buf, c.closed = nil, false
+		c.buf, c.bufh, c.bufvc, c.closed = nil, nil, nil, false
+		c.hs, c.hr = c.h, mix(c.h, 1)
+		s.objs = append(s.objs, c)
 	}
 }
 
@@ -826,12 +1106,32 @@ func (c *Chan[T]) Send(v T) {
 			}
 		}
 	}
+	sh := me.h
+	item := mix(c.hs, sh)
+	me.h = mix(sh, uint64(opSend), c.hs)
+	c.hs = mix(c.hs, uint64(opSend), sh)
+	ivc := vcCopy(me.vc)
 	if r != nil && len(c.buf) == 0 {
 		r.rval, r.rok = v, true
 		r.pend = op{kind: opResume}
+		rh := r.h
+		r.h = mix(rh, uint64(opRecv), item, c.hr)
+		c.hr = mix(c.hr, rh)
+		// rendezvous: the send happens before the receive completes, and (unbuffered) the receive
+		// happens before the send completes
+		rvc := vcCopy(r.vc)
+		r.vc = vcJoin(r.vc, ivc)
+		r.tick()
+		if c.cap == 0 {
+			me.vc = vcJoin(me.vc, rvc)
+		}
+		me.tick()
 		return
 	}
 	c.buf = append(c.buf, v)
+	c.bufh = append(c.bufh, item)
+	c.bufvc = append(c.bufvc, ivc)
+	me.tick()
 }
 
 // Recv2 replaces v, ok := <-c.
@@ -861,9 +1161,17 @@ func (c *Chan[T]) Recv2() (T, bool) {
 	if len(c.buf) > 0 {
 		v := c.buf[0]
 		c.buf = c.buf[1:]
+		rh := me.h
+		me.h = mix(rh, uint64(opRecv), c.bufh[0], c.hr)
+		c.hr = mix(c.hr, rh)
+		c.bufh = c.bufh[1:]
+		me.vc = vcJoin(me.vc, c.bufvc[0])
+		c.bufvc = c.bufvc[1:]
 		return v, true
 	}
 	if c.closed {
+		me.h = mix(me.h, uint64(opRecv), 0xdead, c.hs)
+		acquire(c.vc)
 		return zero, false
 	}
 	panic("vsync: receive chosen while not enabled")
@@ -893,6 +1201,10 @@ func (c *Chan[T]) Close() {
 		panic("close of closed channel")
 	}
 	c.closed = true
+	th := s.cur.h
+	s.cur.h = mix(th, uint64(opClose))
+	c.hs = mix(c.hs, uint64(opClose), th)
+	release(&c.vc)
 }
 
 type nilObj struct{}
@@ -908,6 +1220,7 @@ func (nilChan) isNil() bool   { return true }
 // Go replaces the go statement.
 func Go(f func()) {
 	if Mode == Pass {
+		passGoroutines++
 		go f()
 		return
 	}
@@ -915,7 +1228,26 @@ func Go(f func()) {
 		return
 	}
 	s.step(op{kind: opGo})
-	s.newThread("go", f)
+	p := s.cur
+	name := "go"
+	if pc, _, _, ok := runtime.Caller(1); ok {
+		if fn := runtime.FuncForPC(pc); fn != nil {
+			name = fn.Name()
+		}
+	}
+	t := s.newThread(name, f)
+	t.h = mix(0x60, p.h, uint64(t.id))
+	for _, site := range symSites {
+		if strings.Contains(name, site) {
+			hh := fnv.New64a()
+			hh.Write([]byte(site))
+			t.h = mix(0x61, hh.Sum64()) // interchangeable goroutines start with equal histories
+		}
+	}
+	p.h = mix(p.h, uint64(opGo))
+	t.vc = vcCopy(p.vc)
+	t.tick()
+	p.tick()
 }
 
 // Yield is an explicit scheduling point placed by harness code.
@@ -924,6 +1256,9 @@ func Yield() {
 		return
 	}
 	s.step(op{kind: opYield})
+	th := s.cur.h
+	s.cur.h = mix(th, uint64(opYield), s.mem)
+	s.mem = mix(s.mem, th)
 }
 
 // CurThread is the id of the running logical thread (-1 in Pass mode).
